@@ -1,5 +1,8 @@
 #!/bin/sh
-# rebuild /repo/_build from the working tree and run the pinned test-suite (guard off: there are no hooks)
+# rebuild /repo/_build from the working tree and run the pinned test-suite with a fresh kernel cache
+# (tests use OCCA_CACHE_DIR=/repo/_build/occa; cache keys do not include the translator version,
+#  so a stale cache would hide translator changes)
 set -e
-cmake --build /repo/_build -j16 2>&1 | grep -E "error|FAILED|warning: unused" | head -20 || true
+cmake --build /repo/_build -j16 2>&1 | grep -E "error|FAILED" | head -20 || true
+rm -rf /repo/_build/occa/cache
 ctest --test-dir /repo/_build -j8 --timeout 900 2>&1 | tail -4
